@@ -197,6 +197,34 @@ def gen_cases(prop, u, seed, tier, probe=None):
                     for w in sorted(set([0, 1, 2, 3, nv - 1, nv, nv + 1, 255, 256, 2**32, 2**32 + 1, 2**63, 2**64 - 1])):
                         if w < nv: continue
                         case(i, 0, 'setw:%d:8:%d' % (r['offset'], w), v, 'tag-word', nv=nv, tag=w, off=r['offset'], last=(r['offset'] + 8 == len(ps[0]) // 2))
+    elif prop == 'C19':
+        import itertools
+        def rb(n): return bytes(rng.randrange(256) for _ in range(n)).hex()
+        alphabet = ['w:', 'w:' + rb(1), 'w:' + rb(3), 'w:' + rb(17), 'r:0', 'r:2', 'r:100', 'ss:0', 'ss:7', 'ss:40',
+                    'se:0', 'se:-2', 'se:6', 'sc:-3', 'sc:5', 'p:0', 'p:33', 'f', 'se:-1000', 'sc:-1000']
+        maxlen = 3 if quick else 4
+        alpha = alphabet[:14] if not quick else alphabet[:12]
+        for L in range(1, maxlen + 1):
+            for combo in itertools.product(alpha, repeat=L):
+                cs.add('cursor 16 ' + ';'.join(combo), kind='cursor', family='exhaustive-len%d' % L, val=';'.join(combo))
+        def rand_op():
+            c = rng.random()
+            if c < 0.35: return 'w:' + rb(rng.choice([0, 1, 2, 7, 8, 15, 16, 17, 31, 32, 33, 40, 64, 65, 100]))
+            if c < 0.55: return 'r:%d' % rng.choice([0, 1, 3, 8, 16, 17, 50, 1000])
+            if c < 0.65: return 'ss:%d' % rng.choice([0, 1, 15, 16, 17, 63, 64, 65, 200, 1000, rng.randrange(0, 3000)])
+            if c < 0.75: return 'se:%d' % rng.choice([0, -1, -16, -17, 5, 64, -5000, rng.randrange(-300, 300)])
+            if c < 0.87: return 'sc:%d' % rng.choice([0, -1, 1, -16, 16, 100, -5000, rng.randrange(-300, 300)])
+            if c < 0.97: return 'p:%d' % rng.choice([0, 1, 16, 17, 64, 500, rng.randrange(0, 2000)])
+            return 'f'
+        for k in range(150 if quick else 1500):
+            n = rng.choice([5, 10, 20, 50, 120]) if quick else rng.choice([10, 50, 200, 600])
+            ops = ';'.join(rand_op() for _ in range(n))
+            cs.add('cursor %s %s' % (rng.choice(['16', '32', '64']), ops), kind='cursor', family='random-long', val=ops)
+        # the cases the property singles out
+        for a in ['16', '32', '64']:
+            cs.add('cursor %s p:100;w:0102' % a, kind='cursor', family='gap', val='gap')
+            cs.add('cursor %s w:01;ss:70;w:;r:1;ss:0;r:100' % a, kind='cursor', family='gap-empty-write', val='gap')
+            cs.add('cursor %s w:0102030405;se:-6;se:-5;sc:-1;sc:100;w:07' % a, kind='cursor', family='seek-errors', val='seek')
     else:
         raise ValueError('no case generator for ' + prop)
     return cs
